@@ -160,7 +160,7 @@ def clause_name(file_, line):
 # obligation classes that are reported by CBMC but are outside every property (DESIGN 1.4):
 #  - comparing a pointer a few bytes past one-past-the-end (strict C UB, not sanitizer-visible)
 #  - integer<->integer narrowing / sign conversions (implementation-defined, not UB)
-FILTER_STRICT = re.compile(r'pointer relation: pointer outside object bounds|'
+FILTER_STRICT = re.compile(r'pointer (relation|arithmetic): pointer outside object bounds|'
                            r'arithmetic overflow on (signed|unsigned)( to (signed|unsigned))? type conversion')
 
 
@@ -182,7 +182,7 @@ class Job:
     def __init__(self, name, prop, tus, harness, enforce=None, replace=(), defines=(), tu_defines=(),
                  entry='harness', unwind=8, kind='proof', bound=None, canaries=(), checks=(),
                  extra_src=(), timeout=300, mem_gb=8, rfp=False, replay=None, function_label=None,
-                 loop_contracts=False, solver=(), arbiter=None, include_tus=None, loops=None, nondet_static=False, object_bits=None, assumptions=(),
+                 loop_contracts=False, solver=(), arbiter=None, include_tus=None, loops=None, unwindset=(), nondet_static=False, object_bits=None, assumptions=(),
                  no_default=()):
         self.__dict__.update(locals())
         del self.__dict__['self']
@@ -256,7 +256,7 @@ def _run_job(ws, job, r, extra_defines, want_trace):
         cmd += ['--remove-function-pointers']
     if job.nondet_static:
         cmd += ['--nondet-static']
-    cmd += ['--dfcc', job.entry]
+    cmd += ['--no-malloc-may-fail', '--dfcc', job.entry]   # OOM paths are outside every property (DESIGN 2.2)
     if job.enforce:
         cmd += ['--enforce-contract', mangle(job.enforce)]
     for g in job.replace:
@@ -276,26 +276,38 @@ def _run_job(ws, job, r, extra_defines, want_trace):
     cmd = ['cbmc', b, '--json-ui', '--unwind', str(job.unwind)] + checks + list(job.solver)
     if job.object_bits:
         cmd += ['--object-bits', str(job.object_bits)]
+    for us in job.unwindset:
+        # 'file.c:fn.N:K' -> per-loop bound (loop N of fn), still checked by its unwinding assertion
+        fnpart, k = us.rsplit(':', 1)
+        fn, n = fnpart.rsplit('.', 1)
+        m = mangle(fn).split('/')[0]
+        cmd += ['--unwindset', '%s.%s:%s' % (m, n, k)]
+        # the function under enforcement is renamed by DFCC
+        cmd += ['--unwindset', '%s_wrapped_for_contract_checking.%s:%s' % (m, n, k)]
     if want_trace:
         cmd += ['--trace']
-    rc, so, se, dt = sh(cmd, job.timeout, mem_gb=job.mem_gb)
-    r.secs['cbmc'] = round(dt, 2)
     r.cmds.append(' '.join(cmd))
-    if rc == -9:
-        raise Infra('cbmc timeout after %ss' % job.timeout)
-    try:
-        out = json.loads(so)
-    except Exception:
-        raise Infra('cbmc output not JSON (rc=%s, oom?): %s' % (rc, (so[-600:] + se[-600:])))
-    results = None
-    msgs = []
-    for o in out:
-        if 'result' in o:
-            results = o['result']
-        if o.get('messageType') == 'ERROR':
-            msgs.append(o.get('messageText', ''))
-    if results is None:
-        raise Infra('cbmc gave no result list: ' + ' | '.join(msgs)[-800:])
+    results, out = _cbmc(cmd, job, r)
+    # CBMC 6 leaves obligations UNKNOWN once another one on their path has failed (e.g. a canary or a
+    # filtered strict-C check): decide them in a second pass restricted to exactly those obligations
+    for _ in range(3):
+        unk = [x['property'] for x in results if x['status'] not in ('SUCCESS', 'FAILURE')]
+        if not unk:
+            break
+        cmd2 = cmd + [a for u in unk for a in ('--property', u)]
+        res2, out2 = _cbmc(cmd2, job, r)
+        got = {x['property']: x for x in res2}
+        progressed = False
+        for i, x in enumerate(results):
+            y = got.get(x['property'])
+            if x['status'] not in ('SUCCESS', 'FAILURE') and y is not None and y['status'] in ('SUCCESS', 'FAILURE'):
+                results[i] = y
+                progressed = True
+        out = out + out2
+        if not progressed:
+            break
+    if any('not enough arguments' in (o.get('messageText') or '') for o in out):
+        raise Infra('cbmc: call with missing arguments (nested call inside a spec function under DFCC) - result would be unsound')
     if any('ignoring' in (o.get('messageText') or '') for o in out):
         raise Infra('cbmc ignored a quantifier')
     canary_seen = {}
@@ -387,6 +399,27 @@ def write_loop_contracts(ws, job, gb, base):
     lf = base + '_loops.json'
     json.dump(cfg, open(lf, 'w'), indent=1)
     return lf
+
+
+def _cbmc(cmd, job, r):
+    rc, so, se, dt = sh(cmd, job.timeout, mem_gb=job.mem_gb)
+    r.secs['cbmc'] = round(r.secs.get('cbmc', 0) + dt, 2)
+    if rc == -9:
+        raise Infra('cbmc timeout after %ss' % job.timeout)
+    try:
+        out = json.loads(so)
+    except Exception:
+        raise Infra('cbmc output not JSON (rc=%s, oom?): %s' % (rc, (so[-600:] + se[-600:])))
+    results = None
+    msgs = []
+    for o in out:
+        if 'result' in o:
+            results = o['result']
+        if o.get('messageType') == 'ERROR':
+            msgs.append(o.get('messageText', ''))
+    if results is None:
+        raise Infra('cbmc gave no result list: ' + ' | '.join(msgs)[-800:])
+    return results, out
 
 
 def trace_inputs(trace):
